@@ -120,11 +120,14 @@ def rand_fault_table(rng: Rng, side_conds=DECLARABLE, p: float = 0.5) -> str:
 class DestFeeder:
     """scripted sender for a destination handler: produces a PDU schedule for one transaction"""
 
-    def __init__(self, rng: Rng, c: Cfg, seq: int, grid_only: bool = False, honest: bool = False):
+    def __init__(self, rng: Rng, c: Cfg, seq: int, grid_only: bool = False, honest: bool = False,
+                 bad_dest: float = 0.0):
         self.rng, self.c, self.seq = rng, c, seq
         self.h = hdr(c, seq)
         self.grid_only = grid_only
         self.honest = honest        # the sender's EOF always carries the true size and checksum
+        # the Metadata PDU names a destination whose directory does not exist (filestore rejection)
+        self.dname = "/nodir/f.bin" if bad_dest and rng.chance(bad_dest) else None
 
     def schedule(self) -> list[tuple]:
         """list of actions: ("pdu", text) | ("tick", ms) | ("idle",) | ("cancel", ok) | ("reject", n, exc)"""
@@ -135,7 +138,7 @@ class DestFeeder:
         fds = [("pdu", fd(self.h, o, c.data[o:o + l])) for o, l in tiles]
         cks = ref_checksum(c.cks, c.data)
         e = ("pdu", eof(self.h, 0, cks, n))
-        m = ("pdu", md(c, self.h, msgs=c.msgs))
+        m = ("pdu", md(c, self.h, msgs=c.msgs, dname=self.dname))
         acts: list[tuple] = []
         # loss / duplication / permutation of the tiles
         body = list(fds)
@@ -240,7 +243,7 @@ def serve_naks_from(c: Cfg, h: str, nak_pdu: str) -> list[str]:
 
 def dest_session(rng: Rng, grid_only: bool = False, fs_kind: str = "mem", n_tx: int | None = None,
                  cfg: Cfg | None = None, serve: float = 0.5, honest: bool = False,
-                 reconf: float = 0.0) -> Session:
+                 reconf: float = 0.0, bad_dest: float = 0.0) -> Session:
     c = cfg or rand_cfg(rng)
     if cfg is None:
         c.faults_d = "" if grid_only else rand_fault_table(rng, p=0.35)
@@ -251,7 +254,7 @@ def dest_session(rng: Rng, grid_only: bool = False, fs_kind: str = "mem", n_tx: 
         if reconf and t > 0 and rng.chance(reconf):
             for _ in range(rng.randrange(1, 3)):
                 s.do(f"sethandler D {rng.choice(DECLARABLE)} {rng.choice(FH)}")
-        feeder = DestFeeder(rng, c, seq, grid_only, honest)
+        feeder = DestFeeder(rng, c, seq, grid_only, honest, bad_dest)
         pending: list[str] = []
         do_serve = rng.chance(serve)
         for a in feeder.schedule():
